@@ -630,8 +630,8 @@ Proof.
       destruct (name_eqb (removelast n) m) eqn:E; auto;
         try (apply name_eqb_eq in E; subst m; rewrite Ea in Em; discriminate).
     + split; [intro m; rewrite (A m); apply E1|]. split; [|apply sort_len_sorted].
-      intro m. rewrite assoc_sort_len, assoc_app, (E2 m), <- (B m). destruct (assoc m pt); auto.
-      simpl. destruct (name_eqb (removelast n) m); reflexivity.
+      intro m. rewrite assoc_sort_len, assoc_app, (E2 m), <- (B m). destruct (assoc m pt); auto;
+        try (simpl; destruct (name_eqb (removelast n) m); reflexivity).
   - destruct HE as [E1 E2]. destruct (amem n ct) eqn:Em; inversion H; subst t'; clear H; cbn [fst snd].
     + split; [|split; auto; intro m; rewrite (B m); apply E2].
       intro m. rewrite (E1 m), <- (A m). unfold amem in Em. destruct (assoc m ct) eqn:Ea; auto.
@@ -658,10 +658,8 @@ Proof.
     intro m.
     transitivity (match assoc m (aset (removelast n) p W ++ Bp) with Some v => Some v | None => assoc m [([], PPython)] end);
       [exact (assoc_close (aset (removelast n) p W ++ Bp) m)|].
-    assert (Cl : forall j, assoc j (if amem [] (W ++ Bp) then W ++ Bp else (W ++ Bp) ++ [([], PPython)]) =
-                 match assoc j (W ++ Bp) with Some v => Some v | None => assoc j [([], PPython)] end)
-      by (intro j; exact (assoc_close (W ++ Bp) j)).
-    rewrite (Cl m). unfold amem in Hab. rewrite (Cl (removelast n)) in Hab.
+    change (if amem [] (W ++ Bp) then W ++ Bp else (W ++ Bp) ++ [([], PPython)]) with (close (W ++ Bp)) in *.
+    rewrite assoc_close. unfold amem in Hab. rewrite assoc_close in Hab.
     rewrite assoc_aset_app. destruct (name_eqb (removelast n) m) eqn:E.
     + apply name_eqb_eq in E. subst m. destruct (assoc (removelast n) (W ++ Bp)); [discriminate|].
       destruct (assoc (removelast n) [([], PPython)]); [discriminate|]. reflexivity.
@@ -692,7 +690,7 @@ Proof.
       by exact (assoc_close (W ++ snd (vis_nth V b)) m).
     rewrite Cl, !assoc_app, (E2 m). destruct (assoc m W); auto.
     destruct (assoc m (snd (vis_nth V b))) eqn:Eb; auto.
-    destruct (name_eqb (removelast n) m) eqn:E; auto.
+    destruct (name_eqb (removelast n) m) eqn:E; [|destruct (assoc m [([], PPython)]); reflexivity].
     (* the added wildcard: not "", because the base's list is closed *)
     apply name_eqb_eq in E. subst m. destruct (removelast n) as [|c r] eqn:Er; [contradiction|]. reflexivity.
   - destruct HE as [E1 E2]. split; [|].
